@@ -284,7 +284,7 @@ Definition tmpl_row (row : string * (string * string)) (p : pkg) : string :=
   | _, _ => unmodelled
   end.
 Definition exec_template (rows : list (string * (string * string))) (trailer : string) (p : pkg) : string :=
-  sconcat (map (fun r => tmpl_row r p) rows) +++ trailer.
+  sconcat (map (fun r => tmpl_row r p) rows ++ [trailer]).
 (* ArchiveFromIndex: the APKINDEX member *)
 Definition write_index_with rows trailer (ps : list pkg) : string :=
   sconcat (map (fun p => if p_name p =? "" then "" else exec_template rows trailer p) ps).
